@@ -29,6 +29,7 @@ import (
 
 	"github.com/coder/websocket"
 	"github.com/coder/websocket/wsjson"
+	"github.com/jensneuse/abstractlogger"
 
 	client "github.com/wundergraph/graphql-go-tools/v2/pkg/engine/datasource/graphql_datasource/subscriptionclient"
 	sc "github.com/wundergraph/graphql-go-tools/v2/pkg/engine/datasource/graphql_datasource/subscriptionclient/common"
@@ -37,10 +38,40 @@ import (
 // ----------------------------------------------------------------------------- schedules
 
 type Ev struct {
-	Op   string // sub cancel accept reject ack initfail next complete error nextx junk drop bad tick flush stats
+	Op   string // sub cancel accept reject ack initfail next complete error nextx junk drop bad tick flush stats frame cancelack sframe
 	A, B int    // subscriber / key index / tag / r
 	C    int
+	D, E int // frame: A conn-of, B type, C id selector, D payload, E tag
 }
+
+// frame type codes (both sub-protocols' wire alphabets) and payload codes
+const (
+	fNext = iota
+	fData
+	fError
+	fComplete
+	fConnError
+	fPing
+	fPong
+	fKa
+	fAck
+	fOther
+	fGarbage
+)
+
+var fTypeName = []string{"next", "data", "error", "complete", "connection_error", "ping", "pong", "ka", "connection_ack", "bogus", ""}
+
+const (
+	plNone = iota
+	plObj
+	plBad
+)
+
+// id selectors of a frame event
+const (
+	idNone = -1
+	idJunk = -2
+)
 
 func (e Ev) String() string {
 	switch e.Op {
@@ -48,6 +79,10 @@ func (e Ev) String() string {
 		return common.L(e.Op, common.I(e.A), common.I(e.B))
 	case "nextx":
 		return common.L(e.Op, common.I(e.A), common.I(e.B), common.I(e.C))
+	case "frame":
+		return common.L(e.Op, common.I(e.A), common.I(e.B), common.I(e.C), common.I(e.D), common.I(e.E))
+	case "sframe":
+		return common.L(e.Op, common.I(e.A), common.I(e.B), common.I(e.C), common.I(e.D))
 	case "tick", "flush", "stats":
 		return common.L(e.Op)
 	}
@@ -105,6 +140,7 @@ type sconn struct {
 	wmu     sync.Mutex
 	acceptT time.Time
 	pongs   atomic.Int32
+	owner   int // the subscriber whose Subscribe started this dial (-1: a re-dial seen outside a sub window)
 }
 
 type subscriber struct {
@@ -137,6 +173,24 @@ type World struct {
 	credits map[string]int // minus-run: sticky accept/ack per key
 	sticky  bool
 	skip    map[int]bool // subscribers removed in the minus run
+	armAck  map[int]bool // cancelack: cancel this dialler between connection_ack and its subscribe frame
+	hookTgt atomic.Int32 // subscriber to cancel at the next "connected" line of the transport's logger (-1: none)
+}
+
+// hookLogger: the only place where the harness can stand between a successful protocol init and the
+// dialler's subscribe: WSTransport.dial logs its "connected" debug line (the wsTransport.dial line with
+// three fields) on the dialling goroutine after Init returned and before the connection is handed out.
+type hookLogger struct {
+	abstractlogger.Noop
+	w *World
+}
+
+func (l *hookLogger) Debug(msg string, fields ...abstractlogger.Field) {
+	if msg == "wsTransport.dial" && len(fields) == 3 {
+		if t := l.w.hookTgt.Swap(-1); t >= 0 {
+			l.w.cancelSub(int(t))
+		}
+	}
 }
 
 func (w *World) logf(s string) {
@@ -178,7 +232,8 @@ func parseKeyFromReq(r *http.Request) Key {
 
 func NewWorld(idle int, settle time.Duration) *World {
 	w := &World{subs: map[int]*subscriber{}, widNum: map[string]int{}, settle: settle, idle: idle,
-		credits: map[string]int{}, skip: map[int]bool{}}
+		credits: map[string]int{}, skip: map[int]bool{}, armAck: map[int]bool{}}
+	w.hookTgt.Store(-1)
 	mux := http.NewServeMux()
 	mux.HandleFunc("/sse/", w.serveSSE)
 	mux.HandleFunc("/", w.serveWS)
@@ -199,6 +254,7 @@ func NewWorld(idle int, settle time.Duration) *World {
 		AckTimeout:      ackTO,
 		WriteTimeout:    2 * time.Second,
 		WSIdleTimeout:   it,
+		Logger:          &hookLogger{w: w},
 	})
 	return w
 }
@@ -235,7 +291,7 @@ func (w *World) Close() {
 }
 
 func (w *World) serveWS(rw http.ResponseWriter, r *http.Request) {
-	c := &sconn{key: parseKeyFromReq(r), gate: make(chan string, 4), wids: map[int]string{}}
+	c := &sconn{key: parseKeyFromReq(r), gate: make(chan string, 4), wids: map[int]string{}, owner: -1}
 	w.mu.Lock()
 	c.n = len(w.conns)
 	w.conns = append(w.conns, c)
@@ -435,9 +491,23 @@ func (w *World) handler(i int, sse bool) sc.Handler {
 			w.logf(common.L(pfx, common.I(i), "c"))
 			w.cancelInside(i)
 		case sc.MessageTypeConnectionError:
-			if sse {
+			// a connection error made by the frame conversion (a payload-less error frame: Err == nil; a
+			// legacy connection_error frame: ErrConnectionError; an SSE event with an unusable payload: a
+			// json error) is a DELIVERY to this subscription; everything else is the connection going down
+			var se *json.SyntaxError
+			var ue *json.UnmarshalTypeError
+			switch {
+			case !sse && m.Err == nil:
+				w.logf(common.L(pfx, common.I(i), "x", "0"))
+				w.cancelInside(i)
+			case !sse && errors.Is(m.Err, client.ErrConnectionError):
+				w.logf(common.L(pfx, common.I(i), "x", "1"))
+				w.cancelInside(i)
+			case sse && (errors.As(m.Err, &se) || errors.As(m.Err, &ue) || (m.Err != nil && strings.Contains(m.Err.Error(), "unexpected end of JSON input"))):
+				w.logf(common.L(pfx, common.I(i), "x", "1"))
+			case sse:
 				w.logf(common.L("sseerr", common.I(i)))
-			} else {
+			default:
 				w.logf(common.L("cerr", common.I(i)))
 			}
 		default:
@@ -609,7 +679,28 @@ func (w *World) connOf(i int) (*sconn, string) {
 	return nil, ""
 }
 
+// send: the classic per-id frames (next/data with a payload, error with a payload, complete) in the
+// connection's own sub-protocol
 func (w *World) send(c *sconn, id string, kind string, tag int) bool {
+	if c == nil {
+		return false
+	}
+	switch kind {
+	case "d":
+		t := fNext
+		if c.legacy {
+			t = fData
+		}
+		return w.sendFrame(c, t, true, id, plObj, tag)
+	case "e":
+		return w.sendFrame(c, fError, true, id, plObj, 0)
+	}
+	return w.sendFrame(c, fComplete, true, id, plNone, 0)
+}
+
+// sendFrame writes one frame of the widened alphabet on c: any type of either sub-protocol (also
+// the other one's), with or without id, with no / an object / an unusable payload.
+func (w *World) sendFrame(c *sconn, ft int, hasID bool, id string, pl int, tag int) bool {
 	if c == nil || c.ws == nil {
 		return false
 	}
@@ -619,37 +710,56 @@ func (w *World) send(c *sconn, id string, kind string, tag int) bool {
 	if ph != 2 {
 		return false
 	}
-	var m map[string]any
-	switch kind {
-	case "d":
-		t := "next"
-		if c.legacy {
-			t = "data"
+	m := map[string]any{"type": fTypeName[ft]}
+	if hasID {
+		m["id"] = id
+	}
+	switch pl {
+	case plObj:
+		switch ft {
+		case fError:
+			if c.legacy {
+				m["payload"] = map[string]any{"message": "x"}
+			} else {
+				m["payload"] = []any{map[string]any{"message": "x"}}
+			}
+		default:
+			m["payload"] = map[string]any{"data": map[string]any{"v": tag}}
 		}
-		m = map[string]any{"id": id, "type": t, "payload": map[string]any{"data": map[string]any{"v": tag}}}
-	case "e":
-		if c.legacy {
-			m = map[string]any{"id": id, "type": "error", "payload": map[string]any{"message": "x"}}
-		} else {
-			m = map[string]any{"id": id, "type": "error", "payload": []any{map[string]any{"message": "x"}}}
-		}
-	case "c":
-		m = map[string]any{"id": id, "type": "complete"}
+	case plBad:
+		m["payload"] = "oops" // a JSON string: not an execution result
+	}
+	proto := 0
+	if c.legacy {
+		proto = 1
 	}
 	w.mu.Lock()
-	n := w.wid(id)
-	w.obs = append(w.obs, common.L("up", common.I(c.n), common.I(n), kind, common.I(tag)))
+	n := -1
+	if hasID {
+		n = w.wid(id)
+	}
+	w.obs = append(w.obs, common.L("up", common.I(c.n), common.I(proto), common.I(ft), common.I(n), common.I(pl), common.I(tag)))
 	w.mu.Unlock()
 	ctx, cancel := context.WithTimeout(context.Background(), time.Second)
 	defer cancel()
-	if err := wsjson.Write(ctx, c.ws, m); err != nil {
+	var err error
+	before := c.pongs.Load()
+	need := int32(1)
+	if ft == fPing {
+		need = 2 // the frame itself is answered with a pong too
+	}
+	if ft == fGarbage {
+		err = c.ws.Write(ctx, websocket.MessageText, []byte("}{ not json"))
+	} else {
+		err = wsjson.Write(ctx, c.ws, m)
+	}
+	if err != nil {
 		w.logf(common.L("upfail", common.I(c.n)))
 	} else if !c.legacy {
 		// barrier: the client's single read loop answers a ping only after it has dispatched the
 		// frame before it (the handler runs synchronously in dispatch)
-		before := c.pongs.Load()
 		if wsjson.Write(ctx, c.ws, map[string]string{"type": "ping"}) == nil {
-			for t := 0; t < 5000 && c.pongs.Load() == before; t++ {
+			for t := 0; t < 5000 && c.pongs.Load() < before+need; t++ {
 				w.mu.Lock()
 				dead := c.phase == 3
 				w.mu.Unlock()
@@ -685,6 +795,10 @@ func (w *World) doAck(c *sconn) {
 	w.logf(common.L("ack", common.I(c.n)))
 	w.mu.Lock()
 	c.phase = 2
+	if c.owner >= 0 && w.armAck[c.owner] {
+		delete(w.armAck, c.owner)
+		w.hookTgt.Store(int32(c.owner))
+	}
 	w.mu.Unlock()
 	ctx, cancel := context.WithTimeout(context.Background(), time.Second)
 	_ = wsjson.Write(ctx, c.ws, map[string]string{"type": "connection_ack"})
@@ -704,6 +818,45 @@ func (w *World) apply(s *Sched, e Ev) {
 		w.mu.Unlock()
 		w.startSub(e.A, s.Keys[e.A], false, false)
 		w.waitSubProgress(e.A, nc, s.Keys[e.A])
+		w.mu.Lock()
+		for _, c := range w.conns[nc:] {
+			c.owner = e.A
+		}
+		w.mu.Unlock()
+	case "cancelack": // the dialler A is cancelled between connection_ack and its subscribe frame
+		w.mu.Lock()
+		ok := false
+		if sb := w.subs[e.A]; sb != nil && !sb.canc && !sb.returned {
+			for _, c := range w.conns {
+				if c.owner == e.A && c.phase <= 1 {
+					ok = true
+				}
+			}
+		}
+		if ok {
+			w.armAck[e.A] = true
+		}
+		w.mu.Unlock()
+		applicable = ok
+	case "frame":
+		c, _ := w.connOf(e.A)
+		id, has := "", true
+		switch {
+		case e.C == idNone:
+			has = false
+		case e.C == idJunk:
+			id = "junk-id"
+		default:
+			_, id = w.connOf(e.C)
+			if id == "" {
+				c = nil
+			}
+		}
+		if c == nil || e.B < 0 || e.B > fGarbage {
+			applicable = false
+		} else {
+			applicable = w.sendFrame(c, e.B, has, id, e.D, e.E)
+		}
 	case "presub": // Subscribe with an already cancelled ctx
 		w.startSub(e.A, s.Keys[e.A], false, true)
 	case "cancel":
@@ -873,23 +1026,74 @@ func (w *World) apply(s *Sched, e Ev) {
 			sb.sseState = 3
 			w.mu.Unlock()
 		case "snext":
-			w.logf(common.L("sseup", common.I(e.A), "d", common.I(e.B)))
+			w.logf(common.L("sseup", common.I(e.A), "0", "2", common.I(e.B)))
 			sb.sseGate <- fmt.Sprintf("event: next\ndata: {\"data\":{\"v\":%d}}\n\n", e.B)
 		case "scomplete":
-			w.logf(common.L("sseup", common.I(e.A), "c", "0"))
+			w.logf(common.L("sseup", common.I(e.A), "2", "1", "0"))
 			sb.sseGate <- "event: complete\ndata: \n\n"
 			w.mu.Lock()
 			sb.sseState = 3
 			w.mu.Unlock()
 		case "serror":
-			w.logf(common.L("sseup", common.I(e.A), "e", "0"))
+			w.logf(common.L("sseup", common.I(e.A), "1", "2", "0"))
 			sb.sseGate <- "event: error\ndata: [{\"message\":\"x\"}]\n\n"
 			w.mu.Lock()
 			sb.sseState = 3
 			w.mu.Unlock()
 		}
+	case "sframe": // A: stream, B: event type (0 next 1 error 2 complete 3 none 4 other), C: data (0 absent 1 empty 2 object 3 bad), D: tag
+		w.mu.Lock()
+		sb := w.subs[e.A]
+		st := 0
+		if sb != nil {
+			st = sb.sseState
+		}
+		w.mu.Unlock()
+		if sb == nil || st != 2 || sb.canc {
+			applicable = false
+			break
+		}
+		txt := ""
+		switch e.B {
+		case 0:
+			txt = "event: next\n"
+		case 1:
+			txt = "event: error\n"
+		case 2:
+			txt = "event: complete\n"
+		case 4:
+			txt = "event: foo\n"
+		}
+		switch e.C {
+		case 1:
+			txt += "data:\n"
+		case 2:
+			if e.B == 1 {
+				txt += "data: [{\"message\":\"x\"}]\n"
+			} else {
+				txt += fmt.Sprintf("data: {\"data\":{\"v\":%d}}\n", e.D)
+			}
+		case 3:
+			txt += "data: \"oops\"\n"
+		}
+		if txt == "" {
+			txt = ": keep-alive\n"
+		}
+		w.logf(common.L("sseup", common.I(e.A), common.I(e.B), common.I(e.C), common.I(e.D)))
+		sb.sseGate <- txt + "\n"
+		if sseEnds(e.B, e.C) {
+			w.mu.Lock()
+			sb.sseState = 3
+			w.mu.Unlock()
+		}
 	case "scancel":
-		applicable = w.cancelSub(e.A)
+		w.mu.Lock()
+		live := false
+		if sb := w.subs[e.A]; sb != nil {
+			live = sb.sseState == 1 || sb.sseState == 2
+		}
+		w.mu.Unlock()
+		applicable = live && w.cancelSub(e.A) // a stream that has ended has nothing to cancel
 		w.mu.Lock()
 		if sb := w.subs[e.A]; sb != nil {
 			sb.sseState = 3
@@ -931,6 +1135,20 @@ func (w *World) apply(s *Sched, e Ev) {
 			}
 		}
 	}
+}
+
+// sseEnds: does this event end the stream (graphql-sse: error, complete; an unusable payload; an
+// untyped / unknown event without data is read as complete)
+func sseEnds(t, d int) bool {
+	switch t {
+	case 0:
+		return d != 2
+	case 1, 2:
+		return true
+	case 3:
+		return d == 1 || d == 3
+	}
+	return d != 2
 }
 
 func keyOfIdx(s *Sched, sub int) Key { return s.Keys[sub] }
@@ -1173,6 +1391,76 @@ func genAll(seed uint64, thorough bool) []*Sched {
 			}
 		}
 	}
+	// --- family 1f: the DIALLER is cancelled between connection_ack and its subscribe frame (cancelack: from the
+	// transport's "connected" log line): nothing may stay behind -- the fresh connection has no subscription and must be
+	// closed (at once / by the idle timer); alone, with another key's connection alive, with a later subscriber
+	kL := keyVariants[2]
+	for idle := 0; idle < 3; idle++ {
+		for _, kk := range []Key{k0, kL} {
+			drain := func(evs []Ev) []Ev {
+				if idle == 1 {
+					evs = append(evs, Ev{Op: "tick"})
+				}
+				return append(evs, Ev{Op: "stats"})
+			}
+			add(idle, map[int]Key{0: kk}, drain([]Ev{{Op: "sub", A: 0}, {Op: "accept", A: 0}, {Op: "cancelack", A: 0}, {Op: "ack", A: 0}}))
+			add(idle, map[int]Key{0: kk}, drain([]Ev{{Op: "sub", A: 0}, {Op: "cancelack", A: 0}, {Op: "flush"}}))
+			add(idle, map[int]Key{0: kk, 1: keyVariants[1]}, drain([]Ev{{Op: "sub", A: 1}, {Op: "flush"}, {Op: "sub", A: 0}, {Op: "accept", A: 0},
+				{Op: "cancelack", A: 0}, {Op: "ack", A: 0}, {Op: "next", A: 1, B: 85}, {Op: "stats"}, {Op: "cancel", A: 1}}))
+			add(idle, map[int]Key{0: kk, 1: kk}, drain([]Ev{{Op: "sub", A: 0}, {Op: "accept", A: 0}, {Op: "cancelack", A: 0}, {Op: "ack", A: 0},
+				{Op: "stats"}, {Op: "sub", A: 1}, {Op: "flush"}, {Op: "next", A: 1, B: 86}, {Op: "cancel", A: 1}}))
+		}
+	}
+	// --- family 1g: the whole upstream frame alphabet on a connection shared by two (three) subscriptions, both
+	// sub-protocols: every frame type of either protocol x {id of subscriber 0, no id, an id nobody holds, an id held on
+	// ANOTHER connection} x {no payload, object, unusable payload}; afterwards both subscribers are probed with a next
+	type fr struct{ t, pl int }
+	var frs []fr
+	for _, t := range []int{fNext, fData, fError} {
+		for pl := plNone; pl <= plBad; pl++ {
+			frs = append(frs, fr{t, pl})
+		}
+	}
+	for _, t := range []int{fComplete, fConnError, fPing, fPong, fKa, fAck, fOther, fGarbage} {
+		frs = append(frs, fr{t, plNone})
+	}
+	frs = append(frs, fr{fComplete, plObj}, fr{fConnError, plObj})
+	nfr := 0
+	for _, kk := range []Key{k0, kL} {
+		for _, f := range frs {
+			for _, sel := range []int{0, idNone, idJunk} {
+				nfr++
+				idle := 0
+				if nfr%5 == 0 {
+					idle = 2
+				}
+				if nfr%11 == 0 {
+					idle = 1
+				}
+				if !thorough && idle == 1 && nfr%3 != 0 {
+					idle = 0
+				}
+				evs := []Ev{{Op: "sub", A: 0}, {Op: "accept", A: 0}, {Op: "sub", A: 1}, {Op: "ack", A: 0}, {Op: "next", A: 0, B: 90},
+					{Op: "frame", A: 1, B: f.t, C: sel, D: f.pl, E: 91}, {Op: "next", A: 0, B: 92}, {Op: "next", A: 1, B: 93},
+					{Op: "frame", A: 1, B: f.t, C: sel, D: f.pl, E: 94}, {Op: "next", A: 1, B: 95}, {Op: "cancel", A: 0}, {Op: "cancel", A: 1}}
+				if idle == 1 {
+					evs = append(evs, Ev{Op: "tick"})
+				}
+				add(idle, map[int]Key{0: kk, 1: kk}, append(evs, Ev{Op: "stats"}))
+			}
+		}
+		// terminal frames for one of three; frames after the terminal one (finished id); the subscriber cancelling from
+		// inside the callback of a payload-less error; an id that lives on another connection
+		for _, f := range []fr{{fError, plNone}, {fConnError, plNone}, {fError, plObj}, {fComplete, plNone}} {
+			add(0, map[int]Key{0: kk, 1: kk, 2: kk}, []Ev{{Op: "sub", A: 0}, {Op: "sub", A: 1}, {Op: "sub", A: 2}, {Op: "flush"},
+				{Op: "frame", A: 0, B: f.t, C: 1, D: f.pl}, {Op: "next", A: 0, B: 96}, {Op: "next", A: 1, B: 97}, {Op: "next", A: 2, B: 98},
+				{Op: "frame", A: 0, B: fComplete, C: 1}, {Op: "frame", A: 0, B: fError, C: 1}, {Op: "frame", A: 0, B: f.t, C: 1, D: f.pl},
+				{Op: "cancelin", A: 2}, {Op: "frame", A: 0, B: f.t, C: 2, D: f.pl}, {Op: "next", A: 0, B: 99}, {Op: "cancel", A: 0}, {Op: "stats"}})
+			add(0, map[int]Key{0: kk, 1: kk, 2: keyVariants[1]}, []Ev{{Op: "sub", A: 0}, {Op: "sub", A: 1}, {Op: "sub", A: 2}, {Op: "flush"},
+				{Op: "frame", A: 0, B: f.t, C: 2, D: f.pl}, {Op: "next", A: 2, B: 96}, {Op: "frame", A: 2, B: f.t, C: 0, D: f.pl},
+				{Op: "next", A: 0, B: 97}, {Op: "next", A: 1, B: 98}, {Op: "cancel", A: 0}, {Op: "cancel", A: 1}, {Op: "cancel", A: 2}, {Op: "stats"}})
+		}
+	}
 	// --- family 2: two subscribers, keys differing in exactly one field: never shared
 	for v := 1; v < len(keyVariants); v++ {
 		kA, kB := keyVariants[0], keyVariants[v]
@@ -1217,7 +1505,18 @@ func genAll(seed uint64, thorough bool) []*Sched {
 		tag := 40
 		for len(evs) < L {
 			i := r.Pick(3)
-			switch r.Pick(11) {
+			switch r.Pick(13) {
+			case 11:
+				if started[i] {
+					sel := common.PickOf(r, []int{i, i, idNone, idJunk, r.Pick(3)})
+					evs = append(evs, Ev{Op: "frame", A: i, B: r.Pick(fGarbage + 1), C: sel, D: r.Pick(3), E: 50 + len(evs)})
+				}
+			case 12:
+				// only for a subscriber whose key nobody shares: with a waiter behind the dial the order of the
+				// dialler's removeSub and the waiter's subscribe is a real race
+				if started[2] && !cancelled[2] && keys[2] != k0 {
+					evs = append(evs, Ev{Op: "cancelack", A: 2})
+				}
 			case 0, 1, 2:
 				if !started[i] {
 					started[i] = true
@@ -1277,6 +1576,14 @@ func genAll(seed uint64, thorough bool) []*Sched {
 		{{Op: "ssub", A: 1}, {Op: "sok", A: 1}, {Op: "snext", A: 1, B: 4}, {Op: "sdrop", A: 1}},
 		{{Op: "ssub", A: 1}, {Op: "scancel", A: 1}},
 		{{Op: "ssub", A: 0}, {Op: "sok", A: 0}, {Op: "serror", A: 0}},
+	}
+	// the SSE event alphabet: typed / untyped / unknown-type events x {no data line, empty data, object, unusable data}
+	for t := 0; t < 5; t++ {
+		for d := 0; d < 4; d++ {
+			out = append(out, &Sched{SSE: true, Keys: map[int]Key{}, Evs: []Ev{{Op: "ssub", A: 0}, {Op: "sok", A: 0}, {Op: "ssub", A: 1},
+				{Op: "sok", A: 1}, {Op: "snext", A: 0, B: 1}, {Op: "sframe", A: 1, B: t, C: d, D: 5}, {Op: "snext", A: 0, B: 2},
+				{Op: "snext", A: 1, B: 3}, {Op: "sframe", A: 0, B: t, C: d, D: 6}, {Op: "snext", A: 0, B: 4}, {Op: "scancel", A: 1}, {Op: "stats"}}})
+		}
 	}
 	for a := 0; a < len(sseProgs); a++ {
 		for b := 0; b < len(sseProgs); b++ {
@@ -1348,6 +1655,12 @@ func parseSched(line string) (*Sched, error) {
 				}
 				if len(ee) > 3 {
 					ev.C = atoi(ee[3])
+				}
+				if len(ee) > 4 {
+					ev.D = atoi(ee[4])
+				}
+				if len(ee) > 5 {
+					ev.E = atoi(ee[5])
 				}
 				s.Evs = append(s.Evs, ev)
 			}
@@ -1533,7 +1846,8 @@ func stress(kind string, n int, out *common.Out) {
 
 func newWorldIdle(it time.Duration) *World {
 	w := &World{subs: map[int]*subscriber{}, widNum: map[string]int{}, settle: 2 * time.Millisecond, idle: 1,
-		credits: map[string]int{}, skip: map[int]bool{}}
+		credits: map[string]int{}, skip: map[int]bool{}, armAck: map[int]bool{}}
+	w.hookTgt.Store(-1)
 	mux := http.NewServeMux()
 	mux.HandleFunc("/", w.serveWS)
 	w.srv = httptest.NewServer(mux)
